@@ -1,4 +1,4 @@
 SPECIFICATION Spec
-CONSTANTS MaxSize = 4  MaxSmall = 2  Emit = TRUE
+CONSTANTS MaxSize = 4  MaxSmall = 2  AgedMax = 3  Emit = TRUE
 INVARIANTS EmitCase
 CHECK_DEADLOCK FALSE
